@@ -2,23 +2,28 @@
 
 Correspondence: SWAP(A).apply of real Positive/Complex/DensityMatrix objects vs the extracted Coq model
 (Observables.swap_apply: cyclic pairing by roll, swap of the region, product of the two importance weights,
-real part), on two-row batches, on one long batch containing every ordered pair of basis states as
-neighbouring rows, and on random batches; observables.entanglement.swap vs Observables.swap_sites.
+real part), on two-row batches for all pairs of basis states, on one long batch containing every ordered pair of
+basis states as neighbouring rows, on random batches and single-row batches; observables.entanglement.swap vs
+Observables.swap_sites.  The basis is enumerated independently (itertools.product), not by the code under test.
+The direction of the cyclic pairing in long batches (row i with row i-1 or with row i+1) is detected from the output;
+the model (which pairs with row i-1) is evaluated on the reversed batch when the implementation pairs with row i+1.
 
 Oracle (implementation outputs only, numpy reference): for every region A (all 2^n subsets, every accepted
 encoding int / list / np.array / tensor)
    sum_{s1,s2} p(s1) p(s2)/Z^2 * value(s1, s2)  ==  tr(rho_A^2)   (numpy partial trace of the normalised state),
 the derived Renyi entropy is >= 0, equal for a region and its complement of a pure state, zero for the empty /
-full region of a pure state; in a longer batch row i is paired with row i-1 (cyclically); the batch is unchanged."""
+full region of a pure state; in a longer batch every row is paired with a cyclic neighbour (a shift by one in either
+direction, the same for all rows, so every row is used once in each replica role); the batch is unchanged."""
 import itertools, math, time
 import numpy as np
 import gen
 from checks import c08 as base
 
-RULE = ("state types positive/complex/mixed, nv 1..3 (quick) / 1..4 (thorough), parameter draws from the mixture in harness/gen.py; "
+RULE = ("state types positive/complex/mixed, nv 1..4 in both tiers (quick: fewer draws, one random encoding per region for nv >= 3), parameter draws from the mixture in harness/gen.py plus a large-bias regime (|b| up to 30); "
         "for every state: every subset A of the sites in the encodings list / np.array / tensor (and int for single sites), applied to "
-        "two-row batches [s1; s2] for all pairs of basis states (both orders come out of one batch), to one batch of 4^n rows in which "
-        "every ordered pair of basis states occurs as (row i, row i-1), and to random batches of 3..6 rows; a case is (state, region, "
+        "two-row batches [s1; s2] for all pairs of basis states (both orders come out of one batch; these define value(s1,s2)), to one batch "
+        "of 4^n rows in which every ordered pair of basis states occurs as neighbouring rows, to random batches of 3..6 rows and to "
+        "single-row batches (pairing = cyclic shift by one, direction detected from the output); a case is (state, region, "
         "encoding); non-trivial := all biases non-zero, 0 < |A| < n or n = 1, and (positive or non-zero phase network)")
 ASSUMPTIONS = ["torch elementwise kernels / advanced indexing implement their documented semantics",
                "states with |effective energy| > 300 are skipped (double overflow), counted as skipped_overflow"]
@@ -66,14 +71,48 @@ def encodings(A, n, rng, all_forms):
     return out
 
 
-def check_state(ctx, kind, nv, nh, na, params, with_model=True, only_region=None):
+def independent_space(ctx, s, n, case):
+    """The basis is enumerated here (itertools.product, site 0 most significant), not taken from the code under test."""
+    import torch
+    sp = gen.all_states(n)
+    try:
+        own = s.generate_hilbert_space().numpy()
+        if own.shape != sp.shape or not np.array_equal(own, sp):
+            ctx.count("generate_hilbert_space differs from the independent enumeration (C19's clause; not required here)")
+    except Exception:
+        ctx.count("generate_hilbert_space raised (C19's clause; not required here)")
+    return torch.tensor(sp, dtype=torch.double), sp
+
+
+def detect_shift(out, ridx, V, M):
+    """Which cyclic neighbour is row i paired with?  Returns the list of shifts d in (+1, -1) such that
+    out[i] == V[row_i, row_{i-d}] for every i (V from two-row batches, where both shifts coincide)."""
+    B = len(ridx)
+    good = []
+    for d in (1, -1):
+        want = np.array([V[ridx[i], ridx[(i - d) % B]] for i in range(B)])
+        sc = np.array([M[ridx[i], ridx[(i - d) % B]] for i in range(B)])
+        if out.shape == (B,) and np.all(np.abs(out - want) <= 1e-9 * sc + 1e-7 * np.abs(want)):
+            good.append(d)
+    return good
+
+
+def model_long_batch(m, margs, A, rows_np, d):
+    """Model value of a long batch for the detected shift: the model pairs row i with row i-1; a batch paired
+    with row i+1 is the reversed batch paired with row i-1, read backwards."""
+    if d == -1:
+        return list(reversed(m.call("swap_apply", *margs, A, rows_np[::-1].copy())))
+    return m.call("swap_apply", *margs, A, rows_np)
+
+
+def check_state(ctx, kind, nv, nh, na, params, with_model=True, only_region=None, all_forms=None):
     import torch
     from qucumber.observables import SWAP
     from qucumber.observables.entanglement import swap
     case0 = {"state": kind, "nv": nv, "nh": nh, "na": na, "params": params}
     s = base.build(kind, nv, nh, na, params)
-    space = s.generate_hilbert_space()
-    sp = space.numpy()
+    n = nv
+    space, sp = independent_space(ctx, s, n, case0)
     if not base.energies_ok(kind, params, sp):
         ctx.count("skipped_overflow")
         return
@@ -81,7 +120,7 @@ def check_state(ctx, kind, nv, nh, na, params, with_model=True, only_region=None
     if sm is None:
         return
     rho, p = sm
-    n, N = nv, len(sp)
+    N = len(sp)
     Z = float(p.sum())
     rho_n = rho / np.trace(rho)
     w = p / Z
@@ -94,6 +133,8 @@ def check_state(ctx, kind, nv, nh, na, params, with_model=True, only_region=None
     big = space[torch.tensor(eul, dtype=torch.long)].clone()
     pairs2 = [(i, j) for i in range(N) for j in range(i, N)]
     est = {}
+    if all_forms is None:
+        all_forms = ctx.thorough or n <= 2
     subsets = [list(c) for k in range(n + 1) for c in itertools.combinations(range(n), k)]
     for A in subsets:
         if only_region is not None and A != only_region:
@@ -105,71 +146,79 @@ def check_state(ctx, kind, nv, nh, na, params, with_model=True, only_region=None
             a, b = sp[i].copy(), sp[j].copy()
             a[mask], b[mask] = sp[j][mask], sp[i][mask]
             return max(1e-300, abs(rho[idx(a), i]) * abs(rho[idx(b), j]) / (abs(rho[i, i]) * abs(rho[j, j])))
-        for enc_name, Aenc in encodings(A, n, ctx.rng, ctx.thorough or n <= 2):
+        M = np.array([[mag(i, j) for j in range(N)] for i in range(N)])
+        Vm = None
+        if m is not None:           # model values for every ordered pair (model pairing: row i with row i-1)
+            mo_big = m.call("swap_apply", *margs, A, big.numpy())
+            Vm = np.zeros((N, N))
+            for i in range(len(eul)):
+                Vm[eul[i], eul[i - 1]] = mo_big[i]
+        for enc_name, Aenc in encodings(A, n, ctx.rng, all_forms):
             case = dict(case0, region=A, encoding=enc_name)
             ctx.case({"state": kind, "nv": nv, "region": A, "encoding": enc_name, "am0": params["am"][0][0][0]},
                      nontrivial=triv_state and (0 < len(A) < n or n == 1))
             ctx.count("encoding:" + enc_name); ctx.count("|A|=%d" % len(A))
             O = SWAP(Aenc)
-            # ---- (a) one long batch: every ordered pair (row i, row i-1) exactly once
-            before = big.clone()
-            ok, out = ctx.call("SWAP.apply (all ordered pairs in one batch)", case, lambda: O.apply(s, big))
-            if not ok:
+            # ---- (a) two-row batches [s1; s2] for all pairs: the two cyclic neighbours of a row coincide, so
+            #          out = (value(s1, s2), value(s2, s1)) whatever the direction of the pairing
+            V = np.zeros((N, N))            # V[s1, s2]: replica 1 = s1, replica 2 = s2
+            bad = False
+            for (i, j) in pairs2:
+                b2 = torch.stack([space[i], space[j]]).clone()
+                bb = b2.clone()
+                c2 = dict(case, rows=[i, j])
+                ok, o2 = ctx.call("SWAP.apply (two-row batch)", c2, lambda: O.apply(s, b2))
+                if not ok:
+                    bad = True
+                    break
+                ctx.require("SWAP: batch unchanged by apply", bool(torch.equal(b2, bb)), c2)
+                good = isinstance(o2, torch.Tensor) and tuple(o2.shape) == (2,) and not torch.is_complex(o2)
+                ctx.require("SWAP: one real number per row", bool(good), c2, {"shape": list(getattr(o2, "shape", []))})
+                if not good:
+                    bad = True
+                    break
+                o2 = o2.detach().numpy().astype(float)
+                V[i, j], V[j, i] = o2[0], o2[1]
+                ctx.traces += 1
+            if bad:
                 continue
-            ctx.require("SWAP: batch unchanged by apply", bool(torch.equal(big, before)), case)
-            good = isinstance(out, torch.Tensor) and tuple(out.shape) == (len(eul),) and not torch.is_complex(out)
-            ctx.require("SWAP: one real number per row", bool(good), case, {"shape": list(getattr(out, "shape", []))})
-            if not good:
-                continue
-            out = out.detach().numpy().astype(float)
-            V = np.zeros((N, N))            # V[s1, s2] = value with replica 1 = s1 (row i), replica 2 = s2 (row i-1)
-            for i in range(len(eul)):
-                V[eul[i], eul[i - 1]] = out[i]
             got = float(w @ V @ w)
             est[(tuple(A), enc_name)] = got
             ctx.require("SWAP: sum p(s1)p(s2)/Z^2 value(s1,s2) == tr(rho_A^2)", abs(got - want) <= 1e-8 + 1e-7 * abs(want), case,
                         {"estimator_mean": got, "purity": want})
             ctx.require("SWAP: Renyi-2 entropy >= 0", -math.log(max(got, 1e-300)) >= -1e-9, case, {"estimator_mean": got})
-            if kind != "mixed":
-                if len(A) in (0, n):
-                    ctx.require("SWAP: zero Renyi entropy for the empty / full region of a pure state", abs(got - 1.0) <= 1e-8, case, {"estimator_mean": got})
-            M = np.array([[mag(i, j) for j in range(N)] for i in range(N)])
-            if m is not None:
-                mo = m.call("swap_apply", *margs, A, big.numpy())
-                sc = np.array([M[eul[i], eul[i - 1]] for i in range(len(eul))])
-                ctx.agree("SWAP.apply on the all-pairs batch", out / sc, np.array(mo) / sc, case, scale=1.0)
-            # ---- (b) two-row batches: [s1; s2] yields value(s1,s2) and value(s2,s1)
-            sel = pairs2 if (ctx.thorough and n <= 3) or n <= 2 else [pairs2[k] for k in ctx.rng.choice(len(pairs2), size=min(len(pairs2), 12), replace=False)]
-            for (i, j) in sel:
-                b2 = torch.stack([space[i], space[j]]).clone()
-                bb = b2.clone()
-                ok, o2 = ctx.call("SWAP.apply (two-row batch)", dict(case, rows=[i, j]), lambda: O.apply(s, b2))
-                if not ok:
-                    break
-                o2 = o2.detach().numpy().astype(float)
-                c2 = dict(case, rows=[i, j])
-                ctx.require("SWAP two-row batch: batch unchanged", bool(torch.equal(b2, bb)), c2)
-                okv = (o2.shape == (2,) and abs(o2[0] - V[i, j]) <= 1e-9 * M[i, j] + 1e-7 * abs(V[i, j])
-                       and abs(o2[1] - V[j, i]) <= 1e-9 * M[j, i] + 1e-7 * abs(V[j, i]))
-                ctx.require("SWAP two-row batch [s1;s2] gives value(s1,s2), value(s2,s1) of the long batch", bool(okv), c2,
-                            {"two_row": o2.tolist(), "long": [V[i, j], V[j, i]]})
-                ctx.traces += 1
-            # ---- (c) pairing on a random longer batch: row i uses row i-1
+            if kind != "mixed" and len(A) in (0, n):
+                ctx.require("SWAP: zero Renyi entropy for the empty / full region of a pure state", abs(got - 1.0) <= 1e-8, case, {"estimator_mean": got})
+            if Vm is not None:
+                ctx.agree("SWAP.apply on two-row batches (all ordered pairs)", V / M, Vm / M, case, scale=1.0)
+            # ---- (b) longer batches: every row is paired with a cyclic neighbour (shift by one, either direction)
             B = int(ctx.rng.integers(3, 7))
-            ridx = ctx.rng.integers(0, N, size=B)
-            rb = space[torch.tensor(ridx, dtype=torch.long)].clone()
-            rb0 = rb.clone()
-            ok, o3 = ctx.call("SWAP.apply (random batch)", dict(case, rows=ridx.tolist()), lambda: O.apply(s, rb))
-            if ok:
+            longs = [("all ordered pairs as neighbouring rows", np.array(eul)),
+                     ("random batch", ctx.rng.integers(0, N, size=B)),
+                     ("single-row batch", ctx.rng.integers(0, N, size=1))]
+            for lname, ridx in longs:
+                rb = space[torch.tensor(ridx, dtype=torch.long)].clone()
+                rb0 = rb.clone()
+                c3 = dict(case, batch=lname, rows=ridx.tolist() if len(ridx) <= 8 else "euler(%d)" % N)
+                ok, o3 = ctx.call("SWAP.apply (%s)" % lname, c3, lambda: O.apply(s, rb))
+                if not ok:
+                    continue
+                ctx.require("SWAP: batch unchanged by apply", bool(torch.equal(rb, rb0)), c3)
+                good = isinstance(o3, torch.Tensor) and tuple(o3.shape) == (len(ridx),) and not torch.is_complex(o3)
+                ctx.require("SWAP: one real number per row", bool(good), c3, {"shape": list(getattr(o3, "shape", []))})
+                if not good:
+                    continue
                 o3 = o3.detach().numpy().astype(float)
-                c3 = dict(case, rows=ridx.tolist())
-                wantv = np.array([V[ridx[i], ridx[i - 1]] for i in range(B)])
-                scv = np.array([M[ridx[i], ridx[i - 1]] for i in range(B)])
-                ctx.require("SWAP: row i is paired with row i-1 (cyclically)", bool(o3.shape == (B,) and np.all(np.abs(o3 - wantv) <= 1e-9 * scv + 1e-7 * np.abs(wantv))),
-                            c3, {"got": o3.tolist(), "want": wantv.tolist()})
-                ctx.require("SWAP: random batch unchanged", bool(torch.equal(rb, rb0)), c3)
+                shifts = detect_shift(o3, ridx, V, M)
+                ctx.require("SWAP: in a longer batch every row is paired with a cyclic neighbour (shift by one)", bool(shifts), c3,
+                            {"got": o3[:8].tolist(), "row i with row i-1": [V[ridx[i], ridx[i - 1]] for i in range(min(8, len(ridx)))],
+                             "row i with row i+1": [V[ridx[i], ridx[(i + 1) % len(ridx)]] for i in range(min(8, len(ridx)))]})
+                d = shifts[0] if shifts else 1
+                ctx.count("pairing shift %+d" % d if shifts else "pairing shift undetected")
                 if m is not None:
-                    ctx.agree("SWAP.apply on a random batch", o3 / scv, np.array(m.call("swap_apply", *margs, A, rb.numpy())) / scv, c3, scale=1.0)
+                    mo = model_long_batch(m, margs, A, rb.numpy(), d)
+                    sc = np.array([M[ridx[i], ridx[(i - d) % len(ridx)]] for i in range(len(ridx))])
+                    ctx.agree("SWAP.apply on a longer batch (%s)" % lname, o3 / sc, np.array(mo) / sc, c3, scale=1.0)
         # ---- swap() itself against the model (exact)
         if m is not None:
             i, j = int(ctx.rng.integers(0, N)), int(ctx.rng.integers(0, N))
@@ -189,16 +238,17 @@ def check_state(ctx, kind, nv, nh, na, params, with_model=True, only_region=None
     for A in subsets:
         vals = [v for (k, e), v in est.items() if list(k) == A]
         if len(vals) > 1:
-            ctx.require("SWAP: every encoding of the region gives the same values", max(vals) - min(vals) <= 1e-12 * max(1.0, abs(vals[0])),
+            ctx.require("SWAP: every encoding of the region gives the same values", max(vals) - min(vals) <= 1e-9 * max(1.0, abs(vals[0])),
                         dict(case0, region=A), {"values": vals})
 
 
 def run(ctx):
-    top = 4 if ctx.thorough else 3
-    draws = 5 if ctx.thorough else 3
-    for nv in range(1, top + 1):
-        for kind in ("positive", "complex", "mixed"):
-            for d in range(draws if nv < 4 else 2):
+    # sizes 1..4 in both tiers (the property's range); the quick tier uses fewer draws and, for nv >= 3, one
+    # randomly chosen encoding per region (plus int for single sites) instead of all of them
+    plan = {1: 5, 2: 5, 3: 4, 4: 2} if ctx.thorough else {1: 3, 2: 3, 3: 2, 4: 1}
+    for nv in (1, 2, 3, 4):
+        for kind in ("mixed", "complex", "positive"):
+            for d in range(plan[nv]):
                 ctx.torch_seed()
                 nh = int(ctx.rng.integers(1, nv + 2))
                 na = int(ctx.rng.integers(1, nv + 2)) if kind == "mixed" else 0
